@@ -86,6 +86,25 @@ Proof.
   destruct (N.ltb_spec (lenN buf) (7 + lenN (label_bytes l))); [lia|].
   destruct (65535 <? lenN pdu + 2 + lenN (label_bytes l)); discriminate.
 Qed.
+(* a PDU within the 16-bit total length, a usable label and protocol type, a buffer of 13 bytes or more: encap answers
+   with a packet (complete or first fragment), never with an error *)
+Theorem c02_first_accepted : forall crc S pdu fid pt lab buf, enc_wf S -> label_wf lab ->
+  lab <> L6 [0;0;0;0;0;0] -> ~ (0x0100 <= pt <= 0x05FF) ->
+  lenN pdu + 2 + lenN (label_bytes (snd (check_reuse_hl S lab))) <= 65535 -> 13 <= lenN buf ->
+  exists S' buf' st, encap crc S pdu fid pt lab buf = Ret (S', buf', inl st).
+Proof.
+  intros crc S pdu fid pt lab buf HS Hw Hnz Hp Htl Hb. rewrite encap_spec by assumption.
+  assert (Hz : is_zero6 lab = false) by (unfold is_zero6; apply label_eqb_neq; exact Hnz).
+  unfold encap_hl. rewrite Hz.
+  replace ((256 <=? pt) && (pt <? 1536)) with false.
+  2:{ symmetry. apply andb_false_iff. destruct (N.leb_spec 256 pt); [right; apply N.ltb_ge; lia|left; reflexivity]. }
+  destruct (check_reuse_hl S lab) as [s1 l] eqn:Hc. cbn [snd] in Htl.
+  pose proof (check_reuse_label_wf _ _ _ _ Hw Hc) as Hwl.
+  pose proof (label_len_bytes l Hwl) as Hll. pose proof (label_len_le l) as Hl6. rewrite <- Hll in *.
+  destruct ((4 + lenN (label_bytes l) + lenN pdu <=? lenN buf) && (lenN pdu + lenN (label_bytes l) + 2 <=? 4095)); [eauto|].
+  destruct (N.ltb_spec (lenN buf) (7 + lenN (label_bytes l))); [lia|].
+  destruct (N.ltb_spec 65535 (lenN pdu + 2 + lenN (label_bytes l))); [lia|]. eauto.
+Qed.
 Theorem c02_completes : forall pdu ctx bufs, lenN pdu <= 65535 -> cf_len ctx <= lenN pdu ->
   Forall (fun b => 13 <= lenN b) bufs -> lenN pdu - cf_len ctx + 1 <= lenN bufs ->
   exists ps, frag_run pdu ctx bufs = Ret (ps, None).
@@ -105,5 +124,6 @@ Proof. exact frag_step_schedule. Qed.
 
 Print Assumptions c02_roundtrip.
 Print Assumptions c02_accepts_13.
+Print Assumptions c02_first_accepted.
 Print Assumptions c02_completes.
 Print Assumptions c02_schedule.
